@@ -30,6 +30,9 @@ pub enum PayloadKind {
     Ascii,
     Utf8,
     Binary,
+    /// `prefix` ASCII bytes, then one 3- or 4-byte character, then multi-byte text: used to put a
+    /// character across the preview limit / the read size / the cap
+    Utf8Straddle { prefix: usize, four: bool },
 }
 
 #[derive(Clone, Debug, Serialize, Deserialize, PartialEq)]
@@ -70,6 +73,19 @@ impl Payload {
             PayloadKind::Binary => {
                 out.resize(self.len, 0);
                 rng.fill(&mut out);
+            }
+            PayloadKind::Utf8Straddle { prefix, four } => {
+                let mut st = "a".repeat(prefix);
+                st.push_str(if four { "🙂" } else { "日" });
+                let units = ["é", "日本語", "🙂", "x", "ab", "Ω", "line\n"];
+                while st.len() < self.len {
+                    st.push_str(units[rng.usize_below(units.len())]);
+                }
+                let mut cut = self.len.max(prefix + 4).min(st.len());
+                while cut > 0 && !st.is_char_boundary(cut) {
+                    cut -= 1;
+                }
+                out = st.as_bytes()[..cut].to_vec();
             }
         }
         out
@@ -166,9 +182,44 @@ pub fn generate(run_seed: u64, tier: Tier) -> Scenario {
         }
         v
     };
+    // 1 in 8: a wide character straddles the preview limit (or 8192, or the cap) and a segment
+    // boundary with a pause falls inside it, so its first byte(s) arrive in an earlier read
+    let mut out = out;
+    let mut forced_first_seg: Option<usize> = None;
+    if rng.chance(1, 8) {
+        let edge = match rng.below(4) {
+            0 => 8192,
+            1 if artifact_max_bytes >= 8 => artifact_max_bytes.min(60_000),
+            _ => max_bytes.max(4),
+        };
+        let four = rng.chance(1, 2);
+        let width = if four { 4 } else { 3 };
+        let j = rng.range(1, width as u64 - 1) as usize; // bytes of the character before the edge
+        if edge > j {
+            let prefix = edge - j;
+            let len = (prefix + width + rng.range(0, 3000) as usize).min(cap_len);
+            out = Payload { kind: PayloadKind::Utf8Straddle { prefix, four }, seed: rng.next_u64(), len };
+            // the first stdout segment ends inside the character
+            forced_first_seg = Some(prefix + rng.range(1, width as u64 - 1) as usize);
+        }
+    }
     // 1 in 10: a descendant keeps stdout open after the shell has exited and writes the tail late
     let late = if out.len >= 2 && rng.chance(1, 10) { Some((*rng.pick(&[150u64, 600, 1400]), rng.range(1, (out.len / 2) as u64) as usize)) } else { None };
-    let so = cut(&mut rng, out.len - late.map(|l| l.1).unwrap_or(0), false);
+    let out_actual = out.bytes().len();
+    let out = Payload { len: out_actual, ..out };
+    let late = late.filter(|l| l.1 < out.len && forced_first_seg.is_none());
+    let so = match forced_first_seg {
+        Some(n) if n < out.len => {
+            let mut v = vec![Seg { stderr: false, len: n, pause_ms_before: 0 }];
+            let mut rest = cut(&mut rng, out.len - n, false);
+            if let Some(f) = rest.first_mut() {
+                f.pause_ms_before = 20;
+            }
+            v.append(&mut rest);
+            v
+        }
+        _ => cut(&mut rng, out.len - late.map(|l| l.1).unwrap_or(0), false),
+    };
     let se = cut(&mut rng, err.len, true);
     let mut segs = Vec::new();
     let (mut i, mut j) = (0, 0);
@@ -796,7 +847,7 @@ impl Check for C17 {
         4
     }
     fn rule(&self) -> String {
-        "one run = one seeded scenario: preview limit from {0,1,2,3,5,16,64,100,1000,8191,8192,8193,20000,512Ki}, artifact cap from {0,1,10,100,5000,8192,10000,30000,1Mi,16Mi}, a stdout and a stderr payload (ASCII lines with CR/LF, multi-byte text, arbitrary binary) of a length drawn around 0, the preview limit, 8192, the cap, 3x8192 or up to 45 kB (200 kB thorough), cut into up to 13 segments per stream (1-7 bytes, up to 200 bytes, exactly 8192, 4-12 kB, the rest) that a real bash emits with `cat` in a seeded stdout/stderr interleaving with pauses of 0/3/8/20 ms; in 1 of 10 scenarios the last bytes of stdout are written 150/600/1400 ms later by a background descendant that outlives the shell and keeps the pipe open (the terminal frame must still come after all output and account for it); exit code from {0,1,3,127}, page sizes from {4..100000}, slow disk 0/5/25/60 ms per artifact-store write. Half the scenarios run the foreground shell tool through the real tool runner configured with those limits: bytes_total, preview (text of a prefix within the limit, as long as the limit allows), truncated flags, artifact present whenever output exceeds the preview and the cap is non-zero, stored bytes = prefix of the payload up to the cap read the moment the tool returned, id = sha256 of the stored bytes = file name, and artifact_fetch page sequences (offset advanced by the reported byte count) must terminate, respect the page size and total, and for single-line valid UTF-8 reproduce the stored text exactly. The other half create a background task through POST /tasks with the limits in its arguments (1 in 4 cancelled 0-60 ms after creation, 1 in 12 unstartable: invalid args, cwd escaping the workspace through `..`, absolute cwd, missing cwd): the task stream opens with the spawn frame at seq 0, running at most once, exactly one terminal status which is the last frame, cancel_requested < cancelled < terminal cancelled status and never a cancelled status without a recorded request, unstartable tasks fail, the status endpoint agrees with the terminal frame; for exited tasks the terminal frame's bytes_total/bytes_stored/truncated equal the payload's, the log file read the moment the terminal frame is visible (and again 30 ms later) equals the payload prefix up to the cap, output frames reference consecutive non-overlapping ranges covering the stored bytes with an inline chunk that is a prefix of its range within the limit, and GET /tasks/{id}/output page sequences reproduce valid UTF-8 output exactly; for cancelled tasks the stored bytes are a prefix. distinct = hash of the scenario; non-trivial = at least one payload byte".into()
+        "one run = one seeded scenario: preview limit from {0,1,2,3,5,16,64,100,1000,8191,8192,8193,20000,512Ki}, artifact cap from {0,1,10,100,5000,8192,10000,30000,1Mi,16Mi}, a stdout and a stderr payload (ASCII lines with CR/LF, multi-byte text, arbitrary binary; 1 in 8 stdout payloads place a 3- or 4-byte character across the preview limit, 8192 or the cap with a paused segment boundary inside it) of a length drawn around 0, the preview limit, 8192, the cap, 3x8192 or up to 45 kB (200 kB thorough), cut into up to 13 segments per stream (1-7 bytes, up to 200 bytes, exactly 8192, 4-12 kB, the rest) that a real bash emits with `cat` in a seeded stdout/stderr interleaving with pauses of 0/3/8/20 ms; in 1 of 10 scenarios the last bytes of stdout are written 150/600/1400 ms later by a background descendant that outlives the shell and keeps the pipe open (the terminal frame must still come after all output and account for it); exit code from {0,1,3,127}, page sizes from {4..100000}, slow disk 0/5/25/60 ms per artifact-store write. Half the scenarios run the foreground shell tool through the real tool runner configured with those limits: bytes_total, preview (text of a prefix within the limit, as long as the limit allows), truncated flags, artifact present whenever output exceeds the preview and the cap is non-zero, stored bytes = prefix of the payload up to the cap read the moment the tool returned, id = sha256 of the stored bytes = file name, and artifact_fetch page sequences (offset advanced by the reported byte count) must terminate, respect the page size and total, and for single-line valid UTF-8 reproduce the stored text exactly. The other half create a background task through POST /tasks with the limits in its arguments (1 in 4 cancelled 0-60 ms after creation, 1 in 12 unstartable: invalid args, cwd escaping the workspace through `..`, absolute cwd, missing cwd): the task stream opens with the spawn frame at seq 0, running at most once, exactly one terminal status which is the last frame, cancel_requested < cancelled < terminal cancelled status and never a cancelled status without a recorded request, unstartable tasks fail, the status endpoint agrees with the terminal frame; for exited tasks the terminal frame's bytes_total/bytes_stored/truncated equal the payload's, the log file read the moment the terminal frame is visible (and again 30 ms later) equals the payload prefix up to the cap, output frames reference consecutive non-overlapping ranges covering the stored bytes with an inline chunk that is a prefix of its range within the limit, and GET /tasks/{id}/output page sequences reproduce valid UTF-8 output exactly; for cancelled tasks the stored bytes are a prefix. distinct = hash of the scenario; non-trivial = at least one payload byte".into()
     }
     fn assumptions(&self) -> Vec<String> {
         vec![
